@@ -66,6 +66,7 @@ func (producer *Producer) processList(basePath string, readDir []os.FileInfo) bo
 }
 
 func (producer *Producer) processFile(nodePath string) {
+	verifPoint("producer.enqueue")
 	producer.loopData.chans.fileChan <- nodePath
 }
 
